@@ -62,6 +62,7 @@ def obligations(cv):
     s = 'src/rsa/rsa_pkcs1_sig_unpad.c'
     obs += [
         Ob(s, 'br_rsa_pkcs1_sig_unpad', Call('memcmp'), ('pin', 1), RET(0), ('pin', 0), 'template mismatch must be rejected', rule=R, min_sites=2),
+        Ob(s, 'br_rsa_pkcs1_sig_unpad', Call('memcmp'), ('pin', -1), RET(0), None, 'template mismatch must be rejected', rule=R, min_sites=2),
         Ob(s, 'br_rsa_pkcs1_sig_unpad', Var('sig_len', 'param'), ('assume', 'ult', 11), RET(0), ('assume', 'ugt', 64), 'short signature', rule=R),
     ]
     s = 'src/rsa/rsa_ssl_decrypt.c'
